@@ -308,33 +308,52 @@ fn big_tex(rng: &mut Rng, k: usize, scale: usize) -> String {
 }
 
 /// model: `<meta> <secs>` with section offsets / sizes beyond 2^16 or block counts / block indices
-/// beyond 2^8
+/// beyond 2^8 (runs: 0 stack, 1 runtime, then vertex / edge / index of LOD 0, 1, 2)
 fn big_mdl(rng: &mut Rng, k: usize, scale: usize) -> String {
     let lods = rng.range(2, 3) as usize;
-    let with_edge = rng.chance(1, 2);
+    let with_edge = k % 6 == 2 || rng.chance(1, 2);
     let mut secs: Vec<String> = vec![];
-    // the run that carries the weight of this case
-    let heavy = match k % 4 {
-        0 => 2,                                  // vertex data of LOD 0 above 64 KiB
-        1 => 1,                                  // runtime above 64 KiB (runtime_size >= 2^16)
-        2 => *rng.pick(&[0usize, 2, 4]),         // >= 256 blocks in an early run
-        _ => 99,                                 // no single heavy run: the sum crosses 2^16 late
-    };
+    // the runs that carry the weight of this case: above 64 KiB, or >= 256 blocks
+    let mut heavy: Vec<usize> = vec![];
+    let mut many: Vec<usize> = vec![];
+    match k % 6 {
+        0 => heavy.push(2),                                   // vertex data of LOD 0, largest raw blocks
+        1 => heavy.push(0),                                   // stack: every later offset is >= 2^16
+        2 => {
+            // >= 256 blocks in a run of each kind (and >= 256 / 512 blocks before the later runs)
+            many.push(rng.below(2) as usize);
+            many.push(*rng.pick(&[2usize, 3, 5, 6]));
+            many.push(*rng.pick(&[4usize, 7]));
+        }
+        3 => {}                                               // no heavy run: the sum crosses 2^16 late
+        4 => heavy.push(1),                                   // runtime
+        _ => heavy.push(*rng.pick(&[4usize, 5, 7, 8, 10])),   // index data / a later LOD
+    }
     for s in 0..11usize {
         let lod = if s < 2 { 0 } else { (s - 2) / 3 };
         let is_edge = s >= 2 && (s - 2) % 3 == 1;
         let present = if is_edge { with_edge && lod < lods } else { s < 2 || lod < lods };
-        if !present && s != heavy {
+        if !present && !heavy.contains(&s) && !many.contains(&s) {
             secs.push("-".to_string());
             continue;
         }
-        let sec = if s == heavy && k % 4 == 2 {
-            let a = rng.range(16000, 22000) as usize * scale;
-            blocks_any(rng, a, &[Cut::Tiny])
-        } else if s == heavy {
+        let sec = if many.contains(&s) {
+            // 1..16 bytes per block
+            let n_blocks = rng.range(256, 330) as usize * scale;
+            let data = content(rng, n_blocks * 16);
+            let store = pick_store(rng);
+            let mut v = vec![];
+            let mut pos = 0;
+            for _ in 0..n_blocks {
+                let len = rng.range(1, 16) as usize;
+                v.push(block_stored(rng, &data[pos..pos + len], store));
+                pos += len;
+            }
+            v.join(";")
+        } else if heavy.contains(&s) {
             let a = rng.range(66000, 110000) as usize * scale;
-            blocks_any(rng, a, &[Cut::Full, Cut::Mixed, Cut::Huge])
-        } else if k % 4 == 3 {
+            if k % 6 == 0 { blocks_cut(rng, a, Cut::Huge, Store::Raw) } else { blocks_any(rng, a, &[Cut::Full, Cut::Mixed, Cut::Huge]) }
+        } else if k % 6 == 3 {
             let a = rng.range(9000, 24000) as usize * scale;
             blocks_any(rng, a, &[Cut::Full, Cut::Medium])
         } else {
@@ -356,7 +375,7 @@ fn big_mdl(rng: &mut Rng, k: usize, scale: usize) -> String {
 }
 
 fn gen_big(rng: &mut Rng, thorough: bool, lines: &mut Vec<String>) {
-    let (n_std, n_tex, n_mdl) = if thorough { (90, 40, 40) } else { (8, 4, 4) };
+    let (n_std, n_tex, n_mdl) = if thorough { (90, 40, 48) } else { (8, 4, 6) };
     for k in 0..n_std {
         let (units, suffix) = place(rng);
         let (lo, hi) = if thorough && k % 3 == 0 { (200_000, 900_000) } else { (70_000, 200_000) };
@@ -372,13 +391,14 @@ fn gen_big(rng: &mut Rng, thorough: bool, lines: &mut Vec<String>) {
         let scale = if thorough && k % 5 == 4 { 4 } else { 1 };
         lines.push(format!("mdl {} {} {}", units, suffix, big_mdl(rng, k, scale)));
     }
-    if thorough {
-        // a file-info header above 64 KiB: more than 8189 blocks in the block table
-        for store in [Store::Raw, Store::Any] {
-            let data = content(rng, 8300);
-            let v: Vec<String> = data.chunks(1).map(|c| block_stored(rng, c, store)).collect();
-            lines.push(format!("std 1 0 {}", v.join(";")));
-        }
+    // a file-info header above 64 KiB: more than 8189 blocks in the block table
+    // (thorough only: the model re-walks the file for every block, ~25 s per case in the Lean driver)
+    let stores: &[Store] = if thorough { &[Store::Raw, Store::Any] } else { &[] };
+    for store in stores {
+        let n_blocks = rng.range(8200, 8400) as usize;
+        let data = content(rng, n_blocks);
+        let v: Vec<String> = data.chunks(1).map(|c| block_stored(rng, c, *store)).collect();
+        lines.push(format!("std {} 0 {}", rng.below(3), v.join(";")));
     }
 }
 
